@@ -37,7 +37,7 @@ def mutator(rng, c, focus, h):
     if r < 0.4:
         h.append(gen.upd_line(rng, c, focus=focus))
     elif r < 0.5:
-        h.append(gen.updr_line(rng, c))
+        h.append(gen.updr_line(rng, c, focus=focus))
     elif r < 0.58 and c.kind != 'rec':
         h.append(gen.geom_line(rng, c, mode='ior'))           # geometry operators in place
     elif c.kind == 'wide':
